@@ -1,6 +1,6 @@
 (* Run/C13.v — executable comparator for the C13 correspondence. *)
 From Coq Require Import List NArith ZArith Bool.
-From Cedar Require Import Lib.Bytes gen.Consts Model.Msg Model.Decode.
+From Cedar Require Import Lib.Bytes gen.Consts Model.Msg Model.Decode Model.Sinful.
 Import ListNotations.
 Local Open Scope N_scope.
 
@@ -23,7 +23,9 @@ Inductive case :=
 | CWire (data : bytes) (op : wop) (cls : N) (consumed : N) (val : option bytes)
 | CBlob (blob : bytes) (accepted : bool) (flags : N) (key eiv div : bytes) (ectr dctr : N) (sd rd peer : bytes)
 | CClaim (s sid info key : bytes)
-| CAttrs (s : bytes) (kvs : list (bytes * bytes)).
+| CAttrs (s : bytes) (kvs : list (bytes * bytes))
+| CSinful (s : bytes) (err : bool) (primary host port sock priv_addr priv_net alias : bytes) (noudp : bool)
+          (addrs : list bytes) (ccb : list (bytes * bytes * bytes)) (params : list (bytes * bytes)).
 
 (* compact descriptors for long test inputs (case files stay small) *)
 Definition rep (b : N) (n : N) : bytes := repeat (n2b b) (N.to_nat n).
@@ -178,6 +180,13 @@ Definition kv_agree (model obsv : list (bytes * bytes)) : bool :=
                      | Some v => bytes_eqb v (snd kv) | None => false end) obsv
   && forallb (fun kv => match lookup_last (fst kv) obsv None with Some _ => true | None => false end) model.
 
+Fixpoint all2 {A B} (f : A -> B -> bool) (a : list A) (b : list B) : bool :=
+  match a, b with
+  | [], [] => true
+  | x :: a', y :: b' => f x y && all2 f a' b'
+  | _, _ => false
+  end.
+
 Definition check_case (c : case) : bool :=
   match c with
   | CMsg enc data lens le ops => run_ops enc (reader_of (cut_frames data lens le)) ops
@@ -200,6 +209,18 @@ Definition check_case (c : case) : bool :=
       match import_session_info_attributes s with
       | Some m => kv_agree m kvs
       | None => false
+      end
+  | CSinful s err primary host port sock pa pn alias noudp addrs ccb params =>
+      match parse_sinful s with
+      | None => false                                    (* model panics; the real code did not *)
+      | Some r =>
+          Bool.eqb (sf_err r) err && bytes_eqb (sf_primary r) primary && bytes_eqb (sf_host r) host
+          && bytes_eqb (sf_port r) port && bytes_eqb (sf_sock r) sock && bytes_eqb (sf_priv_addr r) pa
+          && bytes_eqb (sf_priv_net r) pn && bytes_eqb (sf_alias r) alias && Bool.eqb (sf_noudp r) noudp
+          && all2 bytes_eqb (sf_addrs r) addrs
+          && all2 (fun x y => bytes_eqb (fst (fst x)) (fst (fst y)) && bytes_eqb (snd (fst x)) (snd (fst y))
+                              && bytes_eqb (snd x) (snd y)) (sf_ccb r) ccb
+          && kv_agree (sf_params r) params
       end
   end.
 
